@@ -294,7 +294,7 @@ ops_harness!(c13_disconnect_direct_writer, 8, {
     unsafe { pd::LIVE_PTR = core::ptr::null() };
 });
 
-// @harness props=C01,C11,C14,C19,C09 tier=quick layer=L3p unwind=14
+// @harness props=C01,C11,C14,C19,C09 quick_props=C01,C11,C14,C19 tier=quick layer=L3p unwind=14
 // @harness funcs="Connection::publish (QoS 0 path), MqttSerializer::encode_publish, write_all, RuntimeState::note_outbound_activity (projection)"
 // @harness sym="live, validity answer, scratch size answer, Maximum Packet Size, requested QoS with downgrade to 0, payload byte, every write/flush outcome, partial writes, in-progress entry at entry, drain outcome" bounds="PUBLISH 'a' + 1 payload byte (7 bytes)"
 // @harness assumes="A2; valid_for answer arbitrary; K7 (scratch_space real on an empty arena)"
